@@ -285,7 +285,7 @@ pub fn plan(property: &str, tier: Tier) -> Option<Plan>
         }
         "C12" =>
         {
-            let ns: &[u32] = if q { &[4] } else { &[4, 5, 6] };
+            let ns: &[u32] = if q { &[4, 5] } else { &[4, 5, 6] };
             for &n in ns
             {
                 let mut c = Config::base(&format!("C12/deliver2/N{n}"));
@@ -315,7 +315,7 @@ pub fn plan(property: &str, tier: Tier) -> Option<Plan>
                 items.push(item(core_cfg(format!("C12/plain3/L1/N{n}"), p3.clone(), &[1], n, 0, true), "core3", &format!("N={n}")));
             }
             // the same deliveries with an exclusive sender / target and an error-returning target
-            let ns: &[u32] = if q { &[3] } else { &[4, 5] };
+            let ns: &[u32] = if q { &[3, 4] } else { &[4, 5, 6] };
             for &n in ns
             {
                 for (label, variants) in [("excl-plain", vec![Variant::Exclusive, Variant::Plain]), ("err-excl", vec![Variant::Erring, Variant::Exclusive])]
@@ -687,7 +687,7 @@ pub fn plan(property: &str, tier: Tier) -> Option<Plan>
             }
             // exactly one listener per event (the reader count of one): a separate universe, because with persistent
             // registrations the number of listeners of a type never shrinks
-            let ns: &[u32] = if q { &[4] } else { &[4, 5, 6] };
+            let ns: &[u32] = if q { &[4, 5] } else { &[4, 5, 6] };
             for &n in ns
             {
                 let mut c = Config::base(&format!("C05/single/N{n}"));
@@ -760,7 +760,7 @@ pub fn plan(property: &str, tier: Tier) -> Option<Plan>
                 items.push(item(c, "variants", &format!("N={n}")));
             }
             // reactions of other kinds (insertion / mutation / resource) nested between the readers of one event
-            let ns: &[u32] = if q { &[3] } else { &[3, 4, 5] };
+            let ns: &[u32] = if q { &[3, 4, 5] } else { &[3, 4, 5, 6] };
             for &n in ns
             {
                 let mut c = Config::base(&format!("C05/mixed/N{n}"));
@@ -1005,7 +1005,7 @@ pub fn plan(property: &str, tier: Tier) -> Option<Plan>
             // second series: triggers that share one table entry per component type (insertion / mutation / removal
             // lists), type-wide and entity-scoped, so that revoking one reactor's trigger edits a structure that also
             // holds other reactors' handles
-            let ds: &[u32] = if q { &[4] } else { &[4, 5] };
+            let ds: &[u32] = if q { &[4, 5] } else { &[4, 5, 6] };
             for &d in ds
             {
                 let mut c = Config::base(&format!("{property}/life-comp/D{d}"));
